@@ -202,6 +202,39 @@ def check(ctx):
         ctx.touch(iue)
         ctx.check(any(c.calls_named(lambda n: n == ge.path) for c in prog.closures_of(iue)), "C16.c", "RevokeToken::iter_unique_entities:uses-get_entity",
                   "%s:%d" % (iue.file, iue.line), "", "iter_unique_entities does not derive entities from ReactorType::get_entity")
+        # an entity is skipped only when it has no entity (get_entity() is None) or an EARLIER entry names the SAME entity
+        for c in prog.closures_of(iue):
+            ges = [b for b, t, fr in c.iter_calls() if fr and mir.fn_name(fr) == ge.path]
+            if not ges:
+                continue
+            ctx.touch(c)
+            heads = []
+            first = min(ges)
+            for (sb, ok_t, fail_t) in lib.result_arms(c, first):
+                heads.append(fail_t)
+            for b, t, fr in c.iter_calls():
+                if fr and lib.tail(mir.fn_name(fr), 1) in ("eq", "ne") and len(t["args"]) >= 2:
+                    for (sb, tt, ft) in lib.bool_arms(c, b):
+                        heads.append(tt if lib.tail(mir.fn_name(fr), 1) == "eq" else ft)
+                # `.any(|prev| prev.get_entity() == Some(entity))`: true only where an element compared equal
+                if fr and lib.tail(mir.fn_name(fr), 1) == "any" and len(t["args"]) > 1:
+                    for o in origins(c, t["args"][1]):
+                        if o[0] == "agg" and len(o) == 3 and c.blocks[o[1]]["stmts"][o[2]]["rv"]["agg"]["kind"] == "closure":
+                            pcb = prog.body(c.blocks[o[1]]["stmts"][o[2]]["rv"]["agg"]["closure"])
+                            reqs = lib.true_return_requirements(pcb) if pcb is not None else None
+                            if reqs and all(any(v for v in r.values()) for r in reqs):
+                                for (sb, tt, ft) in lib.bool_arms(c, b):
+                                    heads.append(tt)
+            nones = [b for b, i, st in c.iter_stmts() if st["k"] == "assign" and st["place"]["l"] == 0 and not st["place"]["p"]
+                     and "agg" in st["rv"] and st["rv"]["agg"].get("vname") == "None"]
+            nones += [b for b, t, fr in c.iter_calls() if fr and mir.fn_name(fr).endswith("::from_residual") and t["dest"]["l"] == 0]
+            somes = [(b, st["rv"]["agg"]) for b, i, st in c.iter_stmts() if st["k"] == "assign" and st["place"]["l"] == 0 and not st["place"]["p"]
+                     and "agg" in st["rv"] and st["rv"]["agg"].get("vname") == "Some"]
+            ok = bool(somes) and all(lib.dominated_by_any(c, b, heads) for b in nones) \
+                and all(lib.originates_from_call(c, a["ops"][0], first) for b, a in somes)
+            ctx.check(ok, "C16.c", "RevokeToken::iter_unique_entities:skips-only-duplicates", "%s:%d" % (c.file, c.line),
+                      "an entry is skipped only if it names no entity or an earlier entry names the same entity; otherwise its own entity is yielded",
+                      "iter_unique_entities skips entities that are not duplicates (their local data would never be cleaned up) or yields a different entity")
     except mir.AnchorLost as e:
         ctx.fail("C16.c", "anchor-lost", "", str(e))
 
